@@ -69,4 +69,8 @@ Definition entries : list (Z * (data -> data)) :=
     (* 611: [fixed; opolicy; maxf; liar; told...] -> [0; lie] | [1] ExhaustedFailures | [2] shape error *)
     (611, fun d => match ask_lie (dbool (dnth 0 d)) (d_opolicy (dnth 1 d)) (dnat (dnth 2 d)) (d_liar (dnth 3 d)) (dmap d_told (dnth 4 d)) with
                    | LieOk y => L [I 0; e_told y] | LieExhausted => L [I 1] | LieShapeError => L [I 2] end);
-    (612, fun d => ebool (reported_failure (d_obj d))) ].
+    (612, fun d => ebool (reported_failure (d_obj d)));
+    (* 613: [fixed; policy; n0; checkpoint objectives; history of gathered batches] -> [ninit; yi] after fit_surrogate + the batches *)
+    (613, fun d => e_ostate (run_from (dbool (dnth 0 d)) (d_policy (dnth 1 d))
+                                      (restart (dbool (dnth 0 d)) (d_policy (dnth 1 d)) (dZ (dnth 2 d)) (dmap d_obj (dnth 3 d)))
+                                      (dmap (dmap d_obj) (dnth 4 d)))) ].
